@@ -482,8 +482,11 @@ package document
 //@ ensures err == nil ==> cellParasOwn(t)
 //@ ensures err == nil && old(cellPropsOwn(t)) ==> cellPropsOwn(t)
 //@ ensures err == nil && old(rowPropsOwn(t)) ==> rowPropsOwn(t)
+//@ ensures err == nil && old(paraRunsOwn(t)) ==> paraRunsOwn(t)
 //@ loop 1
 //@   invariant 0 <= #i && #i <= len(config.Items) && 0 <= row && row < len(t.Rows) && 0 <= col && col < len(t.Rows[row].Cells) && cell == &t.Rows[row].Cells[col]
+//@   invariant forall k int :: old(len(cell.Paragraphs)) <= k && k < len(cell.Paragraphs) ==> arr(cell.Paragraphs[k].Runs) < allocBound()
+//@   invariant forall k1 int, k2 int :: old(len(cell.Paragraphs)) <= k1 && k1 < k2 && k2 < len(cell.Paragraphs) ==> arr(cell.Paragraphs[k1].Runs) != arr(cell.Paragraphs[k2].Runs)
 //@   invariant unchangedExcept("TableCell.Paragraphs", "Paragraph.*")
 //@   invariant len(cell.Paragraphs) == old(len(cell.Paragraphs)) + #i
 //@   invariant arr(cell.Paragraphs) < allocBound() && (arr(cell.Paragraphs) == old(arr(cell.Paragraphs)) || freshArr(cell.Paragraphs)) && (arr(cell.Paragraphs) == old(arr(cell.Paragraphs)) ==> off(cell.Paragraphs) == old(off(cell.Paragraphs)))
